@@ -31,6 +31,10 @@ REQUESTS = [
 ]
 
 
+# several distinct extra compiler flags, as real callers pass (DOLFINx: ["-O2", "-g0"])
+CARGS = ["-O0", "-g0", "-fno-math-errno"]
+
+
 def run_case(case):
     from vf import jithist as JH
 
@@ -66,15 +70,16 @@ def run_case(case):
                     plan[ev] = d
             spec = {"role": f"p{i}", "cache_dir": cache, "request": req, "timeout": 120, "t0": t0, "log": logp, "expected": exp_path,
                     "start_delay": float(ARRIVALS[int(rng.integers(len(ARRIVALS)))]), "delay_plan": plan,
-                    "compile_args": ["-O0"]}
+                    "compile_args": CARGS}
             plans.append({"role": spec["role"], "start_delay": spec["start_delay"], "delays": plan})
-            procs.append(JH.launch(spec, hdir, f"p{i}", strace=bool(case.get("strace"))))
+            # every process has its own string-hash seed, as separately started interpreters do
+            procs.append(JH.launch(spec, hdir, f"p{i}", env_extra={"PYTHONHASHSEED": str(i) if i % 4 else "random"}, strace=bool(case.get("strace"))))
         rcs = JH.wait_all(procs, watchdog=240)
         # second wave
         late = []
         for j in range(case.get("late", 1)):
-            spec = {"role": f"late{j}", "cache_dir": cache, "request": req, "timeout": 120, "log": logp, "expected": exp_path, "compile_args": ["-O0"]}
-            late.append(JH.launch(spec, hdir, f"late{j}"))
+            spec = {"role": f"late{j}", "cache_dir": cache, "request": req, "timeout": 120, "log": logp, "expected": exp_path, "compile_args": CARGS}
+            late.append(JH.launch(spec, hdir, f"late{j}", env_extra={"PYTHONHASHSEED": str(100 + j)}))
         rcs2 = JH.wait_all(late, watchdog=120)
         events = JH.read_log(logp)
         res["evaluations"] = n + len(late)
